@@ -15,10 +15,13 @@ Local Notation length := List.length.
 Record fixes := mkFixes {
   fx_encode : bool;    (* F6: a record whose encoding logged an error is refused *)
   fx_register : bool;  (* F7: templates are registered after a successful send, not before *)
-  fx_setid : bool      (* F12: a data record's template id must equal the set header id *)
+  fx_setid : bool;     (* F12: a data record's template id must equal the set header id *)
+  fx_reclen : bool;    (* a data record whose encoded fields do not fill its recorded length (the value of
+                          a variable-length element became shorter after the add) counts as an encode error *)
+  fx_zerolen : bool    (* a data record of length 0 is encoded (and its values checked) like any other *)
 }.
-Definition orig : fixes := mkFixes false false false.
-Definition cur : fixes := mkFixes true true true.
+Definition orig : fixes := mkFixes false false false false false.
+Definition cur : fixes := mkFixes true true true true true.
 
 Definition tmap := list (N * (list ie * N)).
 Record exp := mkExp { x_obs : N; x_seq : N; x_tpls : tmap; x_udp : bool }.
@@ -40,7 +43,7 @@ Definition sanity (fx : fixes) (m : tmap) (r : rec) : outcome unit :=
   | Some (ies, minlen) =>
       if negb (N.eqb (rec_fc r) (u16 (N.of_nat (length ies)))) then Err ErrSanity
       else
-        do (b, nerr) <- rec_buffer_e r;
+        do (b, nerr) <- rec_buffer_e_g (fx_zerolen fx) (fx_reclen fx) r;
         if blen b <? minlen then Err ErrSanity
         else if fx_encode fx && negb (Nat.eqb nerr 0) then Err ErrEncode
         else Ok tt
@@ -155,3 +158,94 @@ Fixpoint run_hist (fx : fixes) (st : exp) (h : list event) : list sent :=
 
 Definition final_state (st : exp) (xs : list sent) : exp :=
   match rev xs with x :: _ => r_st x | [] => st end.
+
+(* ---- what a SendSet call leaves behind on the set object (sets are reused) ---- *)
+(* UpdateLenInHeader is reached unless the type is undefined or a data-set check failed *)
+Definition set_after_send (fx : fixes) (st : exp) (s : setb) : setb :=
+  match s_type s with
+  | SUndefined => s
+  | STemplate =>
+      if fx_register fx then fst (step s OUpdLen)
+      else match snd (register_all (x_tpls st) (s_recs s)) with
+           | Ok _ => fst (step s OUpdLen)
+           | _ => s
+           end
+  | SData =>
+      match check_set fx (x_tpls st) s with
+      | Ok _ => fst (step s OUpdLen)
+      | _ => s
+      end
+  end.
+
+(* The number of leading records (Go order) on which GetBuffer ran during the call: a data
+   record caches its buffer then (len(d.buffer) == d.len), so that later changes of its
+   element objects no longer reach the wire. The sanity loop stops at the first record that
+   fails; CreateIPFIXMsg encodes every record unless the size test fails first. *)
+Fixpoint touched_data (fx : fixes) (m : tmap) (setid : N) (rs : list rec) : nat * bool :=
+  match rs with
+  | [] => (0%nat, true)
+  | r :: rest =>
+      if fx_setid fx && negb (N.eqb (rec_tid r) setid) then (0%nat, false)
+      else match lookup_tpl m (rec_tid r) with
+           | None => (0%nat, false)
+           | Some (ies, _) =>
+               if negb (N.eqb (rec_fc r) (u16 (N.of_nat (length ies)))) then (0%nat, false)
+               else match sanity fx m r with
+                    | Ok _ => let '(n, ok) := touched_data fx m setid rest in (S n, ok)
+                    | _ => (1%nat, false)
+                    end
+           end
+  end.
+Definition touched (fx : fixes) (st : exp) (s : setb) : nat :=
+  match s_type s with
+  | SUndefined => 0%nat
+  | STemplate =>
+      if max_msg <? msg_hdr_len + s_len s then 0%nat else length (s_rrecs s)
+  | SData =>
+      if fx_setid fx && (Nat.ltb (length (s_hdr s)) 4 || match lookup_tpl (x_tpls st) (hdr_id s) with None => true | Some _ => false end)
+      then 0%nat
+      else
+        let '(n, ok) := touched_data fx (x_tpls st) (hdr_id s) (s_recs s) in
+        if ok then (if max_msg <? msg_hdr_len + s_len s then n else length (s_rrecs s)) else n
+  end.
+
+(* ---- template refresh (UDP): sendRefreshedTemplates ---- *)
+(* entities.MakeTemplateSet(id, ies): NewSet, PrepareSet(Template, id), one zero-valued element
+   per information element (DecodeAndCreateInfoElementWithValue(ie, nil): fails for the types
+   the library cannot decode), AddRecord *)
+Fixpoint zero_els (ies : list ie) : outcome (list (ie * value)) :=
+  match ies with
+  | [] => Ok []
+  | e :: r => do v <- zero_value (ie_dt e); do t <- zero_els r; Ok ((e, v) :: t)
+  end.
+Definition make_template_set (id : N) (ies : list ie) : outcome setb :=
+  let p := step new_set (OPrepare STemplate id) in
+  do _ <- snd p;
+  do els <- zero_els ies;
+  let a := step (fst p) (OAdd FV1 els id) in
+  do _ <- snd a;
+  Ok (fst a).
+
+(* one set per registered template. The code ranges over a Go map (random order): the model
+   takes the order of its association list; [refresh_messages] (Proofs/Refresh_lemmas.v) shows
+   that each message depends only on its own template, so the order only permutes them *)
+Fixpoint make_sets (m : tmap) : outcome (list setb) :=
+  match m with
+  | [] => Ok []
+  | (id, (ies, _)) :: r => do s <- make_template_set id ies; do t <- make_sets r; Ok (s :: t)
+  end.
+(* the sets are sent through SendSet one after the other; the first failure ends the refresh
+   (and the goroutine closes the connection) *)
+Fixpoint send_all (fx : fixes) (st : exp) (ss : list setb) (t : N) : list sent :=
+  match ss with
+  | [] => []
+  | s :: r =>
+      let x := send_set fx st s t in
+      match r_res x with
+      | Ok _ => x :: send_all fx (r_st x) r t
+      | _ => [x]
+      end
+  end.
+(* a failing MakeTemplateSet returns before anything is sent *)
+Definition refresh (fx : fixes) (st : exp) (t : N) : outcome (list sent) :=
+  do ss <- make_sets (x_tpls st); Ok (send_all fx st ss t).
